@@ -379,7 +379,14 @@ def classify(text: str) -> Tuple[str, Any]:
             if snapshot() != before:
                 out.append(("bad", "rejected input changed the registries"))
             else:
-                out.append(("rejected", None))
+                # a text that is rejected must be rejected the second time too
+                try:
+                    fn(text)
+                    out.append(("bad", "parsing twice gave different results (rejected, then accepted)"))
+                except (ParseError, KeyError):
+                    out.append(("rejected", None))
+                except Exception as e2:  # noqa
+                    out.append(("bad", f"{type(e2).__name__}: {str(e2)[:80]}"))
         except RecursionError:
             out.append(("bad", "RecursionError"))
         except Exception as e:  # noqa
@@ -464,6 +471,12 @@ for fn, typ in ((Unit.parse, Unit), (Quantity.parse, Quantity)):
     except (ParseError, KeyError) as e:
         print(fn.__qualname__, 'rejected:', type(e).__name__)
         if (names, symbols) != (dict(Unit._by_name), dict(Unit._by_symbol)): bad.append('registries changed')
+        try:
+            again = fn(text)
+            print(fn.__qualname__, 'second attempt ->', repr(again)[:100])
+            bad.append('rejected, then accepted')
+        except (ParseError, KeyError):
+            pass
     except Exception as e:
         print(fn.__qualname__, 'raised', type(e).__name__, str(e)[:100])
         bad.append(type(e).__name__)
